@@ -187,6 +187,30 @@ def channel_second(a, channel):
     channel.send(a)
 
 
+def kwonly_channel(*, channel):
+    channel.send(1)
+
+
+def star_channel(*channel):
+    channel[0].send(1)
+
+
+def starstar_channel(**channel):
+    pass
+
+
+def kwonly_channel_after_star(*args, channel):
+    channel.send(1)
+
+
+def posonly_channel(channel, /, a=1):
+    channel.send(("posonly", a))
+
+
+def channel_with_default(channel=None):
+    channel.send("default")
+
+
 lambda_fn = lambda channel: channel.send(1)  # noqa: E731
 
 
